@@ -44,19 +44,21 @@ func main() {
 	verbose := flag.Bool("v", false, "verbose")
 	timeoutF := flag.Int("timeout", 0, "solver timeout in seconds (default by tier)")
 	noEvidence := flag.Bool("no-evidence", false, "do not write the evidence file")
+	noWitness := flag.Bool("no-witness", false, "skip the witness search on failures (debugging)")
 	overlayF := flag.String("overlay", "", "JSON file mapping absolute paths to replacement file paths (for self-tests)")
 	jobs := flag.Int("j", runtime.NumCPU(), "parallel solver jobs")
 	replayF := flag.String("replay", "", "re-run the call recorded in a replay file against the real code")
 	witnessAll := flag.Int("witness-all", 0, "run the concrete contract check (N random records per function) for every target function")
 	flag.Parse()
+	skipWitness = *noWitness
 	if *replayF != "" {
 		os.Exit(doReplay(*replayF, *repo, *verif))
 	}
 	t0 := time.Now()
 
-	timeout := 20
+	timeout := 60
 	if *tier == "thorough" {
-		timeout = 120
+		timeout = 240
 	}
 	if *timeoutF > 0 {
 		timeout = *timeoutF
@@ -408,7 +410,7 @@ func main() {
 		if !witness {
 			suffix = " no-failing-input-found"
 		}
-		fmt.Printf("FAILED %s (%d of %d paths) [%s %s] %s :: %s\n", n, len(a.failed), a.total, o.Res.Status, firstWord(o.Res.Output), o.Pos, o.Text)
+		fmt.Printf("FAILED %s (%d of %d paths; path %s) [%s %s] %s :: %s\n", n, len(a.failed), a.total, o.Path, o.Res.Status, firstWord(o.Res.Output), o.Pos, o.Text)
 		if len(o.Res.Model) > 0 {
 			fmt.Printf("       model: %v\n", o.Res.Model)
 		}
@@ -518,6 +520,8 @@ func main() {
 	os.Exit(exit)
 }
 
+var skipWitness bool
+
 type coverGroup struct {
 	first        *Obligation
 	total, reach int
@@ -595,7 +599,8 @@ func writeReplay(path, prop string, o *Obligation, paths, failed int, repo, veri
 		"query":         o.Res.QueryTxt,
 	}
 	confirmed := false
-	if w := runWitnessSearch(prop, o, repo, verif); w != nil {
+	if skipWitness {
+	} else if w := runWitnessSearch(prop, o, repo, verif); w != nil {
 		r["witness"] = w
 		if c, ok := w["confirmed"].(bool); ok && c {
 			confirmed = true
